@@ -10,7 +10,7 @@ From Srtla Require Import Base Constants Reg Run_C07 RegP C07P.
 
 (** Constants the property text names, tied to the generated file. *)
 Theorem constants_ok_C07 :
-  REG2_TIMEOUT = 4 /\ REG2_WAIT_MS = 4000 /\ REG3_TIMEOUT = 4 /\ SRTLA_ID_LEN = 256 /\
+  REG2_TIMEOUT = 4 /\ REG2_WAIT_MS = 4000 /\ REG2_WAIT_MS = TEXT_TIMEOUT_MS /\ REG3_TIMEOUT = 4 /\ SRTLA_ID_LEN = 256 /\
   REG2_MIN_LEN = 258 /\ SRTLA_TYPE_REG1_LEN = 258 /\ SRTLA_TYPE_REG2_LEN = 258 /\
   REG1_RETRY_MS = 1000 /\ PROBE_WAIT_MS = 2000 /\
   SRTLA_TYPE_REG1 = 37376 /\ SRTLA_TYPE_REG2 = 37377 /\ SRTLA_TYPE_REG3 = 37378 /\
